@@ -1,7 +1,8 @@
 (* C06 — facts about the regenerated shipped library, by computation over the finite table. *)
 From Coq Require Import ZArith QArith List String Bool.
-From OMV Require Import Base.Val C06.Model C06.GenUnitLib C06.Lib.
+From OMV Require Import Base.Val C06.Model C06.GenUnitLib C06.Lib C06.Proofs C06.ProofsNames C06.ProofsFind.
 Import ListNotations.
+Open Scope string_scope.
 
 (* the shipped file loads in the model (every definition resolves in file order), every unit of the
    table has a non-zero factor, one power per base unit, and a name bound in the table to that same
@@ -11,3 +12,60 @@ Lemma library_wf :
   List.length (l_tbl lib) = (List.length gen_bases + List.length gen_defs)%nat /\
   lib_wf lib = true.
 Proof. vm_compute. repeat split; reflexivity. Qed.
+
+Lemma lib_named : table_named (l_tbl lib).
+Proof.
+  apply (table_wf_named (l_nbase lib)). destruct library_wf as (_ & _ & H).
+  unfold lib_wf in H. apply andb_true_iff in H. exact (proj1 H).
+Qed.
+
+(* every unit obtained by evaluating an expression over the shipped library has exactly the factor
+   that its names dictionary (what name() prints) denotes *)
+Lemma lib_eval_names_factor : forall e u o,
+  lits_nz e -> eval None (l_tbl lib) e = Ok (PUnit u o) ->
+  (u_factor u == den_f (kf_of (l_tbl lib)) (u_names u))%Q.
+Proof.
+  intros e u o Hl H.
+  assert (Hpi : forall p : Q, @None Q = Some p -> ~ (p == 0)%Q) by (intros p E; discriminate).
+  exact (eval_vok None (l_tbl lib) e _ lib_named Hpi Hl H).
+Qed.
+
+(* The present simplify_unit (name() without the check of fix_1.diff) is refuted on the shipped
+   library: '1000*s/s' is a unit (factor 1000, dimensionless) whose name '1000' is not a unit. *)
+Lemma simplify_present_refuted :
+  exists e u, fst (find_unit (l_pfx lib) (l_tbl lib) e) = FOk u /\
+              simplify_str u = Some "1000" /\
+              fst (find_unit (l_pfx lib) (l_tbl lib) (name_expr u)) = FNone.
+Proof.
+  exists (EDiv (EMul (ENum (1000 # 1) true) (EName "s")) (EName "s")).
+  eexists. split; [vm_compute; reflexivity|]. split; vm_compute; reflexivity.
+Qed.
+
+(* ... and so is "number / offset unit", which __rdiv__ accepts although products refuse offsets *)
+Lemma simplify_present_refuted_offset :
+  exists e u, fst (find_unit (l_pfx lib) (l_tbl lib) e) = FOk u /\
+              simplify_str u = Some "m*degC/1" /\
+              fst (find_unit (l_pfx lib) (l_tbl lib) (name_expr u)) = FRaise.
+Proof.
+  exists (EDiv (EName "m") (EDiv (ENum (1 # 1) true) (EName "degC"))).
+  eexists. split; [vm_compute; reflexivity|]. split; vm_compute; reflexivity.
+Qed.
+
+(* the repaired simplify_unit keeps the original string on both *)
+Lemma simplify_fixed_examples :
+  (forall u, fst (find_unit (l_pfx lib) (l_tbl lib) (EDiv (EMul (ENum (1000 # 1) true) (EName "s")) (EName "s"))) = FOk u ->
+             simplify_fixed (l_pfx lib) (l_tbl lib) "1000*s/s" u = Some "1000*s/s") /\
+  (forall u, fst (find_unit (l_pfx lib) (l_tbl lib) (EDiv (EMul (EName "ft") (EName "s")) (EName "s"))) = FOk u ->
+             simplify_fixed (l_pfx lib) (l_tbl lib) "ft*s/s" u = Some "ft").
+Proof.
+  split; intros u H; vm_compute in H; injection H as <-; vm_compute; reflexivity.
+Qed.
+
+(* non-vacuity of the conversion theorems: degC -> degF on the shipped library *)
+Lemma convert_example :
+  exists i a j b, tbl_get (l_tbl lib) "degC" = Some (i, a) /\ tbl_get (l_tbl lib) "degF" = Some (j, b) /\
+    exists w, convert (100 # 1) a b = Some w /\ (w == 212 # 1)%Q.
+Proof.
+  vm_compute. do 4 eexists. split; [reflexivity|]. split; [reflexivity|].
+  eexists. split; [reflexivity|]. reflexivity.
+Qed.
